@@ -1,0 +1,51 @@
+// Verification hooks (compiled only with `--cfg yui_verif`).
+//
+// A harness may install a callback that is invoked at schedule points of the
+// parallel kernels and at the iteration points of LLL / SNF. With no callback
+// installed `emit` costs one relaxed atomic load. The callback may sleep,
+// yield or record the event; it must not call back into the library.
+
+use std::sync::atomic::{AtomicBool, Ordering};
+use std::sync::RwLock;
+
+#[derive(Clone, Debug, PartialEq, Eq)]
+pub enum Event {
+    // sparse::pivot
+    PivPhaseDone  { phase: u8, count: usize },
+    PivTaskStart  { row: usize, snapshot: usize },
+    PivBeforeLock { row: usize, cand: usize, snapshot: usize },
+    PivRetry      { row: usize, cand: usize, snapshot: usize, global: usize },
+    PivCommit     { row: usize, col: usize, snapshot: usize, index: usize },
+    PivTaskEnd    { row: usize },
+    // sparse::{triang, schur, decomp}
+    ColStart      { site: &'static str, col: usize },
+    ColDone       { site: &'static str, col: usize, residue_nonzero: bool },
+    PairVisit     { i: usize, j: usize, joined: bool },
+    // dense::{lll, snf}
+    Step          { site: &'static str },
+}
+
+type Hook = Box<dyn Fn(&Event) + Send + Sync>;
+
+static ENABLED: AtomicBool = AtomicBool::new(false);
+static HOOK: RwLock<Option<Hook>> = RwLock::new(None);
+
+pub fn set_hook(hook: Option<Hook>) {
+    let mut h = HOOK.write().unwrap_or_else(|e| e.into_inner());
+    ENABLED.store(hook.is_some(), Ordering::SeqCst);
+    *h = hook;
+}
+
+#[inline]
+pub fn enabled() -> bool {
+    ENABLED.load(Ordering::Relaxed)
+}
+
+#[inline]
+pub fn emit<F>(f: F) where F: FnOnce() -> Event {
+    if !enabled() { return }
+    let h = HOOK.read().unwrap_or_else(|e| e.into_inner());
+    if let Some(h) = h.as_ref() {
+        h(&f())
+    }
+}
